@@ -398,3 +398,86 @@ for _k, _v in _AMEND.items():
 ORDER = ["C%02d" % i for i in range(1, 21)]
 NOT_APPLICABLE = {}
 PENDING_REASON = "check under construction in this development (builder not finished); not claimed yet"
+
+
+# ---------------------------------------------------------------------------------------------------------------
+# Session-6 addenda: appended to the texts above / substituted in the notes (kept separate so that the history of the
+# waves stays readable).
+EXTRA_TEXT = {
+ "C01": (" FOURTH WAVE: fragment F3 of coq/c01vm2 adds OBJECT CONSTRUCTION (opobject; keys before values, earlier pairs in outer "
+         "loops, constant folding), DESTRUCTURING `as` with nested array/object patterns (opindexarray), COMPUTED INDEX and SLICES "
+         "(calls of _index/_slice with expbegin/expend), STRING INTERPOLATION (@text/@json): all 11 theorems of props/C01vm.v "
+         "(final code = denotation, converse, never stuck, tail-call pass, peephole) now quantify over F3; later additions are "
+         "listed in docs/C01vm.md. `?//` is documented as needing a generalisation of the generator predicate (its fork intercepts "
+         "errors raised downstream of the whole expression)."),
+ "C03": (" THIRD WAVE: 75 natives are now PROVED against Spec.v on all well-formed inputs (C03_meets_doc_listed: one statement "
+         "quantifying over the explicit list), incl. bsearch (what sort.Search computes on any array; insertion point on partitioned "
+         "arrays), the @html/@uri/@urid/@base64/@base64d formats with decode-after-encode identities, implode / ascii_*case on "
+         "arbitrary bytes, length/abs/negate on json.Number literals, _slice / _index / getpath for every key and bound type (strings "
+         "by code point, fractional bounds, float indices), _range on arbitrary numbers, flatten without a depth bound; 32 theorems. "
+         "props/C13c.v (run by the C13 check) adds, for the clause 'builtins defined in jq behave as their definitions in builtin.jq': "
+         "a call of a builtin.jq definition equals one tick followed by its body under the evaluator, for every table, and "
+         "not/select/map/add/first/isempty/in as directly written computations, pinned to the regenerated builtin.jq."),
+ "C07": (" THIRD WAVE: props/C07b.v models the one-shot iterators of Code.RunWithContext (variable-count check, with "
+         "c.variables[len(values)] as an explicit partial index) and Query.RunWithContext (compile error): exactly one error then "
+         "(nil,false) forever, never the context error, no poll - under every context; the absorbing/terminal statements lifted to "
+         "every iterator RunWithContext returns; stream c07oneshot (18 variable lists x value counts x four contexts, 14 non-compiling "
+         "queries, 3 extra Next calls). 19 theorems."),
+ "C08": (" THIRD WAVE: props/C08d.v discharges the cli_status_total parameter of C08_full with the command model FROM ARGV with its "
+         "output (coq/c15/Main.v cli_main: stdout bytes, stderr, status; never a model panic; status 2 exactly for flag-parse errors, "
+         "0 for help/version, 5 for a rejected option value, 3 for parse/compile errors, else the documented table; nothing on stdout "
+         "before the loop) and props/C08e.v instantiates compile_total / vm_total with the theorems of coq/c01vm2 for its fragment "
+         "(the VM model, which has an explicit stuck outcome wherever execute.go would panic, is never stuck on any compiled program, "
+         "input, natives instance and fuel; the compiler output satisfies the well-formedness side conditions): "
+         "C08_full_on_fragment has no remaining parameter. 32 theorems."),
+ "C09": (" THIRD WAVE (props/C09c.v, 14 theorems, closed): FULL PRINTER model (every writeTo / String() of query.go incl. the "
+         "Index.writeTo spacing rule and string re-escaping) and FULL PARSER model: the goyacc driver of coq/c08 over the tables of "
+         "the current parser.go with a semantic-value stack and all 157 productions' actions transcribed (keyed by the action TEXT, "
+         "which the translator regenerates: a changed action breaks C09c_actions_transcribed), driven lazily by the lexer model with "
+         "the inString feedback. Unbounded: print_tokens - lexing the printed text of ANY AST of a stated sub-grammar (terms, suffix "
+         "chains, unary signs, all operators, if/try/reduce/foreach/label/as/def, objects) yields exactly tokens_of q, whatever the "
+         "spacing. Finite over the REAL tables (bounds stated): unary sign takes the term with its suffixes (2688 sources), as / def / "
+         "reduce / foreach / if / try / label delimit as documented, and parse_prog (print_prog p) = p for a family of 6196 programs. "
+         "Stream `full`: exact AST incl. metadata or exact ParseError (Offset, Token), exact String() bytes and the model-level round "
+         "trip on ~9600 (quick) / 133000 (thorough) programs; a mismatch is replayed on the implementation's round-trip oracles."),
+ "C12": (" props/C12c.v (6 theorems): --raw-output0 rejects EXACTLY the strings containing NUL; a string under -r/-j/--raw-output0 is "
+         "written verbatim (no UTF-8 handling on the raw path) then the terminator; raw flags change only the terminator of non-strings, "
+         "whose body is valid JSON reading back as the value."),
+ "C13": (" THIRD WAVE (props/C13c.v): to_entries, from_entries, to_entries|from_entries = id and with_entries(.) = id as theorems "
+         "about the reference evaluator Sem APPLIED TO THE CURRENT builtin.jq (coq/gen/GenBuiltins.v, regenerated every run; the "
+         "definitions a proof depends on are pinned by reflexivity, so an edit of builtin.jq breaks the obligation, not only a hash): "
+         "exact equations between runs for every well-formed object, every consumer and every fuel above a stated bound; further "
+         "laws as recorded in docs/C13.md. 30 theorems."),
+ "C14": (" Implementation oracle capture-names: with Go's SubexpNames as the independent source, every capture of every match carries "
+         "its group's name (also non-participating groups) and capture has exactly the named groups as keys."),
+ "C15": (" SECOND WAVE (props/C15b.v, 18 theorems, closed): the command FROM ARGV - cli_main = flags parser (coq/c08 over the "
+         "regenerated flag table) -> runInternal before the loop (help/version, colour decision, indent range, --yaml-output --tab, "
+         "--arg family bindings, -f, default query, Parse/Compile) -> the run loop; for every argument vector and every world: never "
+         "a model panic, the whole result of every phase, silence before the loop, status origin and documented codomain, input "
+         "shaping by -n/-s, and the C15 theorems lifted to cli_main, colour and --yaml-output included. Stream c15argv: random "
+         "argument vectors (flag mixes, clusters, --k=v, unknown flags, missing values, --, --args/--jsonargs, files, -f, -L, GOJQ_COLORS) "
+         "through cli.VerifRun judged by the extracted cli_main: derived job, stdout bytes, stderr, status."),
+ "C16": (" Long raw line oracle in every tier: -R / -Rs / -nR with lines of 4095..1 MiB bytes around every buffer size (4 KiB, 16 KiB "
+         "window, 64 KiB scanner limit), each followed by further lines."),
+ "C19": (" The native-vs-definition stream includes a native that returns its argument slice itself (a retained slice must not see "
+         "later arguments: defect repaired by repo commit 81d0c57)."),
+}
+NOTE_REPLACE = {
+ "C03": [("PARTIAL: C03_meets_doc_full / C03_rep_independent_full for ALL natives are Definitions, not theorems (the remaining natives are judged against Spec.v on every run);",
+          "Further hypothesis pf_sign (ParseFloat of '-'+r is the negation of ParseFloat r) where literals are negated. PARTIAL: C03_meets_doc_full / C03_rep_independent_full for ALL natives are Definitions, not theorems (75 natives proved, 18 on a stated sub-domain, 2 model-only: fromjson, delpaths; the others are judged against Spec.v on every run);")],
+ "C07": [(" One-shot iterators for wrong variable counts are not modelled.", "")],
+ "C08": [("PARTIAL: driver termination is not proved (never ran out of fuel 100(n+3) in the correspondence); type assertions inside grammar actions and the VM/natives are covered by the crash search and by C01/C03 models, not by a whole-pipeline theorem.",
+          "props/C08b, C08d and C08e depend on the Reals axioms Flocq brings into the natives model (sig_not_dec, sig_forall_dec, functional_extensionality_dep, classic). PARTIAL: the whole-pipeline statement C08_full_on_fragment covers compiler and VM only for the fragment of coq/c01vm2 (outside it: crash search and the C01 correspondence) and rests on the seams listed in coq/integ/NoCrash.v (token numbering, lexer/driver interleaving, natives called with accepted arities on hole-free values: argued, not proved).")],
+ "C09": [("PARTIAL: the goyacc automaton, the ~150 semantic actions and writeTo methods outside the operator sublanguage are not modelled (C09_full kept as a Definition); they are covered by the implementation-side round-trip oracles and by C08's LR driver theorem.",
+          "PARTIAL: the parser and printer are now modelled in full and tied exactly on every corresponded program, but LR soundness/completeness for ARBITRARY token lists is not proved: the unbounded round trip and spacing-insensitivity of the AST hold for the operator sublanguage (C09), print_tokens for the stated sub-grammar, the rest by finite theorems over the real tables with their bounds and by the model-level round trip on every corresponded program (C09_full / C09c_full kept as Definitions).")],
+ "C12": [(" -r/-j/--raw-output0 are modelled and compared, without a theorem.", " The raw modes are theorems of props/C12.v and C12c.v.")],
+ "C13": [("Closed under the global context (no axioms). jq-defined pairs are proved over Gallina transcriptions of the builtin.jq text, tied by correspondence.",
+          "props/C13.v and C13b.v: closed under the global context. props/C13c.v (over coq/sem): the Reals axioms Flocq's binary64 brings in (sig_not_dec, sig_forall_dec, functional_extensionality_dep, classic). The entries pairs are proved BOTH over Gallina transcriptions (tied by correspondence and text hashes) and over the evaluator applied to the regenerated builtin.jq (C13c); the stream / paths pairs only over the transcriptions unless docs/C13.md says otherwise.")],
+ "C15": [("Flag parsing is not part of this model (C08 models parseFlags);", "Flag parsing is C08's model, composed with this one in props/C15b.v (cli_main); --stream / --yaml-input decoders are not replicated by the argv stream (such vectors run with -n or are skipped and counted);")],
+}
+for _p, _t in EXTRA_TEXT.items():
+    CHECKS[_p]["text"] = CHECKS[_p]["text"] + _t
+for _p, _rs in NOTE_REPLACE.items():
+    for _a, _b in _rs:
+        assert CHECKS[_p]["note"].count(_a) == 1, (_p, _a[:40])
+        CHECKS[_p]["note"] = CHECKS[_p]["note"].replace(_a, _b)
